@@ -11,9 +11,9 @@ import (
 
 func init() {
 	register("C02", &Spec{
-		Title: "Crash atomicity / single outcome",
+		Title:       "Crash atomicity / single outcome",
 		Explanation: "Decides the ordering and 'apply exactly what the primary says' obligations a single outcome rests on: (R1) the primary batch is dispatched and has succeeded (and is forgotten) before the remaining batches for commit(non-async)/cleanup/pessimistic-lock; (R2) resolve requests carry the lock's own transaction id and the commit ts of the status that was checked for that lock; (R3) a lock is removed only when the checked status has ttl==0 or the async-commit lock expired on the resolver's clock (operands: the lock's txn id, the status' ttl); (R4) only final statuses are cached, and 'rolled back' means ttl==0 ∧ commitTS==0 ∧ one of the three rollback actions; (R5) async-commit recovery raises the commit ts only while no lock is missing, adopts the store's commit ts otherwise, and refuses mismatches; (R6) one commit timestamp: a CommitTsExpired retry updates the committer's commit ts together with the request. NOT decided: outcomes after a crash at each RPC index (needs executions).",
-		Run: runC02,
+		Run:         runC02,
 	})
 }
 
@@ -23,6 +23,7 @@ func runC02(c *core.Ctx) {
 		// "the outcome is committed iff the client had been told success": the undetermined /
 		// cleanup bookkeeping of C03 is the structural core of that clause as well.
 		c.Import(runC03, "C03", []string{"R1", "R2", "R3", "R6", "R7"}, "viaC03")
+		c.Import(runC04, "C04", []string{"R2"}, "viaC04")
 	}
 }
 
